@@ -272,8 +272,13 @@ def check(prog, res, tier):
                 if ns and all(st.decide_eq0(x - ns[0]) is True for x in ns):
                     bit = IntV(ns[0])
             if len(sets) != len(calls):
-                fails.append(definite(f'in one iteration {len(sets)} bitmap bits are set but {len(calls)} elements are emitted '
-                                      f'(bit n must be set iff element n is present)', head.node))
+                if not sets or not calls:
+                    # the bitmap and the data are built in different loops (or the bitmap is not a list of flags at all)
+                    fails.append(soft(f'in one iteration {len(sets)} bitmap positions are set and {len(calls)} elements are emitted: '
+                                      f'the bitmap is not built next to the data', head.node))
+                else:
+                    fails.append(definite(f'in one iteration {len(sets)} bitmap bits are set but {len(calls)} elements are emitted '
+                                          f'(bit n must be set iff element n is present)', head.node))
                 continue
             for e, c in zip(sets, calls):
                 idx = e.data['key']
